@@ -12,6 +12,9 @@ C08 driver.  Requests (after a `graph …` line):
 
 Answers: emitted node ids, `x` marks a `None`; events as D<n>@<t> T<u>-<v> B<u>-<v> C<u>-<v> F<n>@<t>,
 followed by `|cont`, `|break` or `|panic`.
+
+Per case the `graph` line is checked for the side conditions of the theorems (`viewOkB`, `wfB`,
+`closedB`); per request the start nodes must be nodes of the view (`nodesB`).
 -/
 namespace PetgraphModel.C08
 open PetgraphModel PetgraphModel.Trav PetgraphModel.Oracle
@@ -79,96 +82,123 @@ def toksNodes (s : String) : List Nat := if s == "-" then [] else (s.splitOn ","
 
 /-! ### spec-level judges (built on the proved `reachFrom`) -/
 
-/-- Dfs with move_to/reset: replay the script against the implementation's tokens.  Per segment
-(since the last `new`) the emitted nodes must be new, reachable from the segment's start through
-nodes undiscovered at `move_to`, and on `a` the segment must be complete. -/
-def judgeDfs (g : MGraph) (cmds : List Cmd) (toks : List String) : Option String := Id.run do
-  let mut disc : List Nat := []        -- discovered since creation / reset
-  let mut seg : List Nat := []         -- emitted since the last move_to
-  let mut allowed : Option (List Nat) := some []   -- reachable set of the current segment
-  let mut rest := toks
-  let mut exhausted := true
-  for c in cmds do
-    match c with
-    | .reset => disc := []; seg := []; allowed := some []; exhausted := true
-    | .new s =>
-      seg := []
-      exhausted := false
-      allowed := if disc.contains s then some [] else reachFrom (removeNodes g disc) s
-    | .take _ | .all =>
-      let isAll := match c with | .all => true | _ => false
-      let mut k := match c with | .take k => k | _ => 1000000000
-      while k > 0 do
-        match rest with
-        | [] => if isAll then return some "answer ends before the walker is exhausted" else k := 0
-        | t :: r =>
-          rest := r
-          if t == "x" then
-            -- exhausted: the segment must be complete
-            match allowed with
-            | some al => if !(sameSet seg al) && !exhausted then
-                return some s!"walker stopped after {showNats seg}, reachable-and-new set is {showNats al}"
-            | none => pure ()
-            exhausted := true
-            k := 0
-          else match t.toNat? with
-            | none => return some s!"unexpected token {t}"
-            | some n =>
-              if disc.contains n then return some s!"node {n} emitted twice"
-              match allowed with
-              | some al => if !al.contains n then return some s!"node {n} is not reachable from the start through undiscovered nodes"
-              | none => pure ()
-              disc := n :: disc
-              seg := seg ++ [n]
-              k := k - 1
-  return none
+/-! #### `walk` scripts: decoding the answer into segments
 
-/-- DfsPostOrder with move_to/reset (`C08_postorder_moveTo`): while every earlier segment since the last
-reset was run to exhaustion, discovered = finished = emitted, so a segment started at `s` must emit
-exactly the nodes reachable from `s` through nodes not emitted before (nothing if `s` was emitted), each
-once.  After an interrupted segment (a `move_to` before exhaustion leaves discovered-but-unfinished
-nodes behind) only "no node is emitted twice since the last reset" is judged. -/
-def judgePostScript (g : MGraph) (cmds : List Cmd) (toks : List String) : Option String := Id.run do
-  let mut fin : List Nat := []         -- emitted since creation / reset
-  let mut seg : List Nat := []
-  let mut allowed : Option (List Nat) := some []
-  let mut rest := toks
-  let mut exhausted := true
-  let mut dirty := false
-  for c in cmds do
-    match c with
-    | .reset => fin := []; seg := []; allowed := some []; exhausted := true; dirty := false
-    | .new s =>
-      if !exhausted then dirty := true
-      seg := []
-      exhausted := false
-      allowed := if dirty then none else if fin.contains s then some [] else reachFrom (removeNodes g fin) s
-    | .take _ | .all =>
-      let isAll := match c with | .all => true | _ => false
-      let mut k := match c with | .take k => k | _ => 1000000000
-      while k > 0 do
-        match rest with
-        | [] => if isAll then return some "answer ends before the walker is exhausted" else k := 0
-        | t :: r =>
-          rest := r
-          if t == "x" then
-            match allowed with
-            | some al => if !(sameSet seg al) && !exhausted then
-                return some s!"post-order walker stopped after {showNats seg}, reachable-and-new set is {showNats al}"
-            | none => pure ()
-            exhausted := true
-            k := 0
-          else match t.toNat? with
-            | none => return some s!"unexpected token {t}"
-            | some n =>
-              if fin.contains n then return some s!"node {n} emitted twice"
-              match allowed with
-              | some al => if !al.contains n then return some s!"node {n} is not reachable from the start through unfinished nodes"
-              | none => pure ()
-              fin := n :: fin
-              seg := seg ++ [n]
-              k := k - 1
-  return none
+A *segment* is what one `move_to` (or the creation of the walker) is followed by until the next
+`move_to` / `reset`: the nodes the walker emitted, in order, and whether it was seen to return `None`.
+`decodeCmds` only splits the answer tokens along the script (protocol decoding); what a segment has to
+satisfy is `judgeSegDfs` / `judgeSegPost`, proved sound in `Proofs/C08W4Script.lean`. -/
+
+structure Seg where
+  /-- nodes emitted earlier since creation / the last reset, newest first -/
+  base : List Nat := []
+  /-- `none`: the walker has not been moved to a node since creation / the last reset -/
+  start : Option Nat := none
+  /-- nodes emitted in this segment, in order -/
+  out : List Nat := []
+  /-- the walker returned `None` in this segment -/
+  exhausted : Bool := false
+  /-- (`DfsPostOrder`) a segment since the last reset was left before the walker returned `None` -/
+  dirty : Bool := false
+  deriving Repr, Inhabited
+
+/-- answer tokens: `some n` = the walker returned node `n`, `none` = it returned `None` (`x`) -/
+def parseToks (s : String) : Option (List (Option Nat)) :=
+  if s == "-" then some [] else
+  (s.splitOn ",").mapM fun t => if t == "x" then some none else t.toNat?.map some
+
+/-- serve a "take ≤ k" command: up to `k` tokens, stopping after a `None` -/
+def decodeTake : Nat → Seg → List (Option Nat) → Except String (Seg × List (Option Nat))
+  | 0, sg, toks => .ok (sg, toks)
+  | _+1, _, [] => .error "answer ends before the script is served"
+  | _+1, sg, none :: r => .ok ({ sg with exhausted := true }, r)
+  | k+1, sg, some n :: r =>
+    if sg.exhausted then .error s!"node {n} emitted after the walker had returned None"
+    else decodeTake k { sg with out := sg.out ++ [n] } r
+
+def decodeCmds : List Cmd → List Seg → Seg → List (Option Nat) → Except String (List Seg)
+  | [], done, cur, toks =>
+    if toks.isEmpty then .ok (cur :: done).reverse else .error "answer has more tokens than the script asks for"
+  | .reset :: cs, done, cur, toks => decodeCmds cs (cur :: done) {} toks
+  | .new s :: cs, done, cur, toks =>
+    decodeCmds cs (cur :: done)
+      { base := cur.out.reverse ++ cur.base, start := some s,
+        dirty := cur.dirty || (cur.start.isSome && !cur.exhausted) } toks
+  | .take k :: cs, done, cur, toks =>
+    match decodeTake k cur toks with
+    | .error e => .error e
+    | .ok (cur', r) => decodeCmds cs done cur' r
+  | .all :: cs, done, cur, toks =>
+    match decodeTake (toks.length + 1) cur toks with
+    | .error e => .error e
+    | .ok (cur', r) => decodeCmds cs done cur' r
+
+def decodeScript (cmds : List Cmd) (toks : List (Option Nat)) : Except String (List Seg) :=
+  decodeCmds cmds [] {} toks
+
+/-- first element of `l` that is in `seen` or occurs again later in `l` -/
+def firstDup (seen : List Nat) : List Nat → Option Nat
+  | [] => none
+  | x :: l => if seen.contains x || l.contains x then some x else firstDup seen l
+
+/-- the set a segment may emit: reachable from the start through nodes not emitted before -/
+def segAllowed (g : MGraph) (sg : Seg) (s : Nat) : Option (List Nat) :=
+  if sg.base.contains s then some [] else reachFrom (removeNodes g sg.base) s
+
+/-- set clauses of one segment (`Dfs`, and `DfsPostOrder` while no segment was abandoned): nothing
+emitted twice (also w.r.t. earlier segments), only nodes reachable from the start through nodes not
+emitted before, and all of them once the walker returned `None`. -/
+def judgeSegSet (g : MGraph) (sg : Seg) : Option String :=
+  match sg.start with
+  | none => if sg.out.isEmpty then none else some s!"a walker without start node emitted {showNats sg.out}"
+  | some s =>
+    match firstDup sg.base sg.out with
+    | some n => some s!"node {n} emitted twice"
+    | none =>
+      match segAllowed g sg s with
+      | none => none
+      | some al =>
+        match sg.out.find? fun n => !al.contains n with
+        | some n => some s!"node {n} is not reachable from the start through nodes not emitted before"
+        | none =>
+          if sg.exhausted && !(sameSet sg.out al) then
+            some s!"walker stopped after {showNats sg.out}, reachable-and-new set is {showNats al}"
+          else none
+
+def judgeSegDfs (g : MGraph) (sg : Seg) : Option String := judgeSegSet g sg
+
+/-- the order clause of `DfsPostOrder` on a complete segment: every emitted node comes after each of
+its successors that cannot reach it back (such a successor was emitted in an earlier segment or
+earlier in this one) -/
+def postOrderBad (g : MGraph) (sg : Seg) : Option Nat :=
+  sg.out.find? fun x => (g.succ x).any fun y =>
+    (reachB g y x == some false) && !(sg.base.contains y || (sg.out.contains y && sg.out.idxOf y < sg.out.idxOf x))
+
+/-- `DfsPostOrder` (`C08_postorder_moveTo`, `C08_postorder_moveTo_order`): while every earlier segment
+since the last reset was run to exhaustion, discovered = finished = emitted, so the set clauses of
+`judgeSegSet` apply and, once the segment is complete, the order clause.  After an abandoned segment
+(`dirty`) only "no node is emitted twice since the last reset" is judged. -/
+def judgeSegPost (g : MGraph) (sg : Seg) : Option String :=
+  if sg.dirty then
+    (firstDup sg.base sg.out).map fun n => s!"node {n} emitted twice"
+  else
+    match judgeSegSet g sg with
+    | some e => some e
+    | none =>
+      if sg.exhausted then
+        (postOrderBad g sg).map fun x =>
+          s!"node {x} is emitted before a successor that cannot reach it back: {showNats sg.out} (earlier: {showNats sg.base.reverse})"
+      else none
+
+def judgeDfs (g : MGraph) (cmds : List Cmd) (toks : List (Option Nat)) : Option String :=
+  match decodeScript cmds toks with
+  | .error e => some e
+  | .ok segs => segs.findSome? (judgeSegDfs g)
+
+def judgePostScript (g : MGraph) (cmds : List Cmd) (toks : List (Option Nat)) : Option String :=
+  match decodeScript cmds toks with
+  | .error e => some e
+  | .ok segs => segs.findSome? (judgeSegPost g)
 
 /-- hop distance from `s` by layered expansion (`none` = unreachable) -/
 def hopDist (g : MGraph) (s : Nat) : Nat → List Nat → List Nat → Nat → Nat → Option Nat
@@ -186,23 +216,38 @@ def judgeSetFrom (g : MGraph) (s : Nat) (out : List Nat) : Option String :=
   | none => none
   | some r => if sameSet r out then none else some s!"emitted {showNats out}, reachable set is {showNats r}"
 
+/-- non-decreasing -/
+def nondecB : List Nat → Bool
+  | a :: b :: t => decide (a ≤ b) && nondecB (b :: t)
+  | _ => true
+
+/-- the distance claimed for `x`: the entry of `ds` at the position of `x` in `out` -/
+def distOf (out ds : List Nat) (x : Nat) : Nat := ds.getD (out.idxOf x) 0
+
+/-- hop-distance certificate: `ds` (one entry per emitted node) are the true hop distances from `s`
+provided `out` is the reachable set (`judgeSetFrom`), the start has distance 0, no edge out of an emitted
+node increases the distance by more than one, and every other emitted node has a predecessor one step
+closer (`C08_judgeBfs_sound`).  The distances themselves come from the unverified `hopDist`; a wrong
+value can only make the certificate fail. -/
+def distCertBad (g : MGraph) (s : Nat) (out ds : List Nat) : Option String :=
+  if distOf out ds s != 0 then some "hop-distance certificate: the start is not at distance 0" else
+  match out.find? fun u => (g.succ u).any fun w => !(out.contains w && decide (distOf out ds w ≤ distOf out ds u + 1)) with
+  | some u => some s!"hop-distance certificate: an edge out of {u} skips a level"
+  | none =>
+    match out.find? fun x => x != s && !((g.pred x).any fun p => out.contains p && distOf out ds p + 1 == distOf out ds x) with
+    | some x => some s!"hop-distance certificate: {x} has no predecessor one level closer"
+    | none => none
+
 def judgeBfs (g : MGraph) (s : Nat) (out : List Nat) : Option String :=
   match judgeSetFrom g s out with
   | some e => some e
   | none =>
     let ds := out.map fun x => (hopDist g s (g.nodes.length + 2) [s] [] 0 x).getD 0
-    if (ds.zip (ds.drop 1)).all fun (a, b) => a ≤ b then none
-    else some s!"hop distances not non-decreasing: nodes {showNats out} distances {showNats ds}"
-
-/-- post-order: set = reachable, no duplicates, and each node after every successor that cannot reach it back -/
-def judgePost (g : MGraph) (s : Nat) (out : List Nat) : Option String :=
-  match judgeSetFrom g s out with
-  | some e => some e
-  | none =>
-    let pos := fun x => out.idxOf x
-    let bad := out.find? fun x => (g.succ x).any fun y =>
-      y != x && (reachB g y x == some false) && !(pos y < pos x)
-    bad.map fun x => s!"node {x} is emitted before a successor that cannot reach it back: {showNats out}"
+    match distCertBad g s out ds with
+    | some e => some s!"{e} (nodes {showNats out} distances {showNats ds})"
+    | none =>
+      if nondecB ds then none
+      else some s!"hop distances not non-decreasing: nodes {showNats out} distances {showNats ds}"
 
 /-- nodes on or downstream of a cycle -/
 def cyclicOrDownstream (g : MGraph) : List Nat :=
@@ -250,73 +295,116 @@ def parseEv (s : String) : Option Ev :=
 def parseCtl (s : String) : List Ctl :=
   s.toList.filterMap fun c => if c == 'c' then some .cont else if c == 'p' then some .prune else if c == 'b' then some .brk else none
 
-/-- spec-level replay of an event stream: stack discipline, times, edge classes, control.
-Independent of neighbour order. -/
-def judgeEvents (g : MGraph) (starts : List Nat) (script : List Ctl) (evs : List Ev) (res : String) : Option String := Id.run do
-  let mut disc : List Nat := []
-  let mut fin : List Nat := []
-  let mut stack : List (Nat × List Nat × Bool) := []   -- (node, targets reported so far, pruned at discover)
-  let mut time := 0
-  let mut k := 0
-  let mut pendingTree : Option Nat := none             -- a TreeEdge(_, w) with Continue must be followed by Discover w
-  let mut startsLeft := starts
-  let n := evs.length
-  for e in evs do
-    let ctl := ctlAt script k
-    match pendingTree, e with
-    | some w, .discover n' _ => if n' != w then return some s!"event {k}: TreeEdge to {w} not followed by its Discover"
-    | some w, _ => return some s!"event {k}: TreeEdge to {w} not followed by its Discover"
-    | none, _ => pure ()
-    pendingTree := none
-    match e with
-    | .discover u t =>
-      if t != time then return some s!"event {k}: time {t}, expected {time}"
-      time := time + 1
-      if disc.contains u then return some s!"event {k}: {u} discovered twice"
-      if stack.isEmpty then
-        -- must be the next start that is not yet discovered
-        startsLeft := startsLeft.dropWhile fun s => disc.contains s
-        match startsLeft with
-        | s :: r => if s != u then return some s!"event {k}: root {u}, expected start {s}" else startsLeft := r
-        | [] => return some s!"event {k}: Discover {u} without a start"
-      disc := u :: disc
-      stack := (u, [], ctl == .prune) :: stack
-    | .tree u w | .back u w | .cross u w =>
-      match stack with
-      | (top, seen, pruned) :: rest =>
-        if top != u then return some s!"event {k}: edge from {u} while {top} is being explored"
-        if pruned then return some s!"event {k}: edge reported from pruned node {u}"
-        if ((g.succ u).count w) ≤ seen.count w then return some s!"event {k}: edge {u}->{w} reported more often than it exists"
-        let cls := match e with | .tree .. => 0 | .back .. => 1 | _ => 2
-        let want := if !disc.contains w then 0 else if !fin.contains w then 1 else 2
-        if cls != want then return some s!"event {k}: edge {u}->{w} misclassified (got class {cls}, expected {want}; 0=tree 1=back 2=cross/forward)"
-        stack := (top, w :: seen, pruned) :: rest
-        if cls == 0 && ctl == .cont then pendingTree := some w
-      | [] => return some s!"event {k}: edge event outside any Discover/Finish pair"
-    | .finish u t =>
-      if t != time then return some s!"event {k}: time {t}, expected {time}"
-      time := time + 1
-      match stack with
-      | (top, seen, pruned) :: rest =>
-        if top != u then return some s!"event {k}: Finish {u} while {top} is open (not well nested)"
-        if !pruned && !(sameSet seen (g.succ u)) then
-          return some s!"event {k}: Finish {u} after edges to {showNats seen}, its successors are {showNats (g.succ u)}"
-        fin := u :: fin
-        stack := rest
-      | [] => return some s!"event {k}: Finish {u} without Discover"
-    k := k + 1
-    if ctl == .brk then
-      if k != n then return some s!"event {k - 1}: visitor returned Break but {n - k} more events followed"
-      return if res == "break" then none else some s!"Break at event {k - 1} but result is {res}"
-    if ctl == .prune then
-      match e with
-      | .finish .. => return if k == n && res == "panic" then none else some "Prune on Finish must panic (documented)"
-      | _ => pure ()
-  if pendingTree.isSome then return some "stream ends after a TreeEdge"
-  if !stack.isEmpty then return some "stream ends with unfinished nodes"
-  startsLeft := startsLeft.dropWhile fun s => disc.contains s
-  if !startsLeft.isEmpty then return some s!"start {startsLeft.head!} was never discovered"
-  return if res == "cont" then none else some s!"complete traversal but result is {res}"
+/-! #### spec-level replay of a `depth_first_search` event stream
+
+`judgeEvents` checks stack discipline, times, edge classes and the control script against the
+ABSTRACT graph only (independent of neighbour order): the edges reported from a node must form a
+sub-multiset of its successors, the whole multiset when the node is finished without having been
+pruned.  It is a fold of the pure step function `jstep` over the judge state `JS`;
+`Proofs/C08W4Judge.lean` proves it sound (`C08_judgeEvents_sound`: an accepted stream is a run of the
+reference machine on some neighbour order of the abstract graph, hence satisfies every clause
+`C08_dfsv_*` states of the model). -/
+
+structure JS where
+  disc : List Nat := []
+  fin : List Nat := []
+  /-- open calls, innermost first: (node, targets reported so far — newest first, pruned at Discover) -/
+  stack : List (Nat × List Nat × Bool) := []
+  time : Nat := 0
+  /-- index of the next event -/
+  k : Nat := 0
+  /-- a `TreeEdge(_, w)` answered `Continue` must be followed by `Discover(w)` -/
+  pending : Option Nat := none
+  /-- start nodes not yet used as a root -/
+  startsLeft : List Nat := []
+  deriving Repr, Inhabited
+
+def jDiscover (ctl : Ctl) (s : JS) (u t : Nat) : Except String JS :=
+  if t != s.time then .error s!"event {s.k}: time {t}, expected {s.time}" else
+  if s.disc.contains u then .error s!"event {s.k}: {u} discovered twice" else
+  match s.pending with
+  | some w =>
+    if u != w then .error s!"event {s.k}: TreeEdge to {w} not followed by its Discover"
+    else .ok { s with time := s.time + 1, disc := u :: s.disc, stack := (u, [], ctl == .prune) :: s.stack,
+                      pending := none }
+  | none =>
+    if !s.stack.isEmpty then .error s!"event {s.k}: Discover {u} inside an open call without a TreeEdge to it" else
+    -- must be the next start that is not yet discovered
+    match s.startsLeft.dropWhile fun x => s.disc.contains x with
+    | x :: r =>
+      if x != u then .error s!"event {s.k}: root {u}, expected start {x}"
+      else .ok { s with time := s.time + 1, disc := u :: s.disc, stack := (u, [], ctl == .prune) :: s.stack,
+                        startsLeft := r }
+    | [] => .error s!"event {s.k}: Discover {u} without a start"
+
+/-- the class the target's state demands: 0 = tree (undiscovered), 1 = back (discovered, unfinished),
+2 = cross/forward (finished) -/
+def edgeWant (s : JS) (w : Nat) : Nat :=
+  if !s.disc.contains w then 0 else if !s.fin.contains w then 1 else 2
+
+/-- `cls`: 0 = tree, 1 = back, 2 = cross/forward -/
+def jEdge (g : MGraph) (ctl : Ctl) (s : JS) (cls u w : Nat) : Except String JS :=
+  match s.pending with
+  | some x => .error s!"event {s.k}: TreeEdge to {x} not followed by its Discover"
+  | none =>
+    match s.stack with
+    | (top, seen, pruned) :: rest =>
+      if top != u then .error s!"event {s.k}: edge from {u} while {top} is being explored" else
+      if pruned then .error s!"event {s.k}: edge reported from pruned node {u}" else
+      if ((g.succ u).count w) ≤ seen.count w then .error s!"event {s.k}: edge {u}->{w} reported more often than it exists" else
+      if cls != edgeWant s w then .error s!"event {s.k}: edge {u}->{w} misclassified (got class {cls}, expected {edgeWant s w}; 0=tree 1=back 2=cross/forward)" else
+      .ok { s with stack := (top, w :: seen, pruned) :: rest,
+                   pending := if cls == 0 && ctl == .cont then some w else none }
+    | [] => .error s!"event {s.k}: edge event outside any Discover/Finish pair"
+
+def jFinish (g : MGraph) (s : JS) (u t : Nat) : Except String JS :=
+  match s.pending with
+  | some x => .error s!"event {s.k}: TreeEdge to {x} not followed by its Discover"
+  | none =>
+    if t != s.time then .error s!"event {s.k}: time {t}, expected {s.time}" else
+    match s.stack with
+    | (top, seen, pruned) :: rest =>
+      if top != u then .error s!"event {s.k}: Finish {u} while {top} is open (not well nested)" else
+      if !pruned && !(sameSet seen (g.succ u)) then
+        .error s!"event {s.k}: Finish {u} after edges to {showNats seen}, its successors are {showNats (g.succ u)}"
+      else .ok { s with time := s.time + 1, fin := u :: s.fin, stack := rest }
+    | [] => .error s!"event {s.k}: Finish {u} without Discover"
+
+/-- one event, answered by the visitor with `ctl` -/
+def jstep (g : MGraph) (ctl : Ctl) (s : JS) : Ev → Except String JS
+  | .discover u t => jDiscover ctl s u t
+  | .tree u w => jEdge g ctl s 0 u w
+  | .back u w => jEdge g ctl s 1 u w
+  | .cross u w => jEdge g ctl s 2 u w
+  | .finish u t => jFinish g s u t
+
+def isFinishEv : Ev → Bool
+  | .finish .. => true
+  | _ => false
+
+def jrun (g : MGraph) (script : List Ctl) (res : String) : JS → List Ev → Option String
+  | s, [] =>
+    match s.pending with
+    | some _ => some "stream ends after a TreeEdge"
+    | none =>
+      if !s.stack.isEmpty then some "stream ends with unfinished nodes" else
+      match s.startsLeft.dropWhile fun x => s.disc.contains x with
+      | x :: _ => some s!"start {x} was never discovered"
+      | [] => if res == "cont" then none else some s!"complete traversal but result is {res}"
+  | s, e :: rest =>
+    let ctl := ctlAt script s.k
+    match jstep g ctl s e with
+    | .error m => some m
+    | .ok s' =>
+      if ctl == .brk then
+        if !rest.isEmpty then some s!"event {s.k}: visitor returned Break but {rest.length} more events followed"
+        else if res == "break" then none else some s!"Break at event {s.k} but result is {res}"
+      else if ctl == .prune && isFinishEv e then
+        if rest.isEmpty && res == "panic" then none else some "Prune on Finish must panic (documented)"
+      else jrun g script res { s' with k := s.k + 1 } rest
+
+def judgeEvents (g : MGraph) (starts : List Nat) (script : List Ctl) (evs : List Ev) (res : String) : Option String :=
+  jrun g script res { startsLeft := starts } evs
 
 def bfsAll (v : View) : Nat → Bfs → List Nat → List Nat
   | 0, _, acc => acc
@@ -335,6 +423,41 @@ def verdict (spec : Option String) (model impl : String) : String :=
   | some why => s!"SPECFAIL {why}"
   | none => cmpExact model impl
 
+/-! ### run-time checks of the hypotheses of the theorems
+
+Every hypothesis of a `C08_*` theorem that concerns the concrete case is evaluated here on every case
+the driver judges; `Theorems/C08.lean` (section "run-time checks of the hypotheses") proves that each
+Boolean implies the hypothesis it stands for. -/
+
+def nodupB : List Nat → Bool
+  | [] => true
+  | x :: l => !l.contains x && nodupB l
+
+/-- `MGraph.WellFormed`: node ids are distinct and every edge joins two nodes -/
+def wfB (g : MGraph) : Bool :=
+  nodupB g.nodes && g.edges.all fun e => g.nodes.contains e.src && g.nodes.contains e.tgt
+
+/-- the view lists no neighbour for an id that is not a node -/
+def closedB (v : View) : Bool :=
+  (v.out.all fun p => v.g.nodes.contains p.1 || p.2.isEmpty) &&
+  (v.inn.all fun p => v.g.nodes.contains p.1 || p.2.isEmpty)
+
+/-- all of `l` are nodes of the view -/
+def nodesB (v : View) (l : List Nat) : Bool := l.all fun x => v.g.nodes.contains x
+
+def cmdStarts (cmds : List Cmd) : List Nat :=
+  cmds.filterMap fun c => match c with | .new s => some s | _ => none
+
+/-- `Topo::with_initials`: the driver's inner fuel covers a duplicate-free list, or any list of at
+most 14 entries (`C08_driver_topo_init_total`) -/
+def initsOkB (l : List Nat) : Bool := nodupB l || decide (l.length ≤ 14)
+
+def outOfRange (what : String) (l : List Nat) : String :=
+  s!"SPECFAIL generator left the proved range: {what} {showNats l} not all among the nodes of the view"
+
+def parseEvs (s : String) : Option (List Ev) :=
+  if s == "-" then some [] else (s.splitOn ",").mapM parseEv
+
 def step (d : DState) (req : List String) (impl : String) : DState × String :=
   match req with
   | ["case", k] => ({}, s!"case {k}")
@@ -343,29 +466,42 @@ def step (d : DState) (req : List String) (impl : String) : DState × String :=
     match parseView req with
     | none => (d, "SPECFAIL unparsable graph line")
     | some v =>
-      if viewOkB v then ({ v := v, ok := true }, "ok")
-      else ({ v := v, ok := false }, "SPECFAIL neighbour iteration of this encoding does not describe the abstract graph")
+      if !viewOkB v then
+        ({ v := v, ok := false }, "SPECFAIL neighbour iteration of this encoding does not describe the abstract graph")
+      else if !wfB v.g then
+        ({ v := v, ok := false }, "SPECFAIL side condition wellFormed does not hold: node ids repeat or an edge joins a non-node")
+      else if !closedB v then
+        ({ v := v, ok := false }, "SPECFAIL side condition viewClosed does not hold: the view lists neighbours of an id that is not a node")
+      else ({ v := v, ok := true }, "ok")
+  | _ =>
+  if !d.ok then (d, "SPECFAIL side condition view does not hold: the graph line of this case is missing or was rejected") else
+  match req with
   | ["walk", kind, script] =>
     let cmds := parseScript script
-    let toks := if impl == "-" then [] else impl.splitOn ","
+    if !nodesB d.v (cmdStarts cmds) then (d, outOfRange "move_to targets" (cmdStarts cmds)) else
     if impl == "panic" then (d, "SPECFAIL walker panicked") else
+    match parseToks impl with
+    | none => (d, s!"SPECFAIL malformed answer {impl}")
+    | some toks =>
     match kind with
     | "dfs" => (d, verdict (judgeDfs d.v.g cmds toks) (joinToks (runDfs d.v cmds)) impl)
-    | "post" =>
-      -- plain `n<s>,a` script: set + order; other scripts: `judgePostScript` (sets per segment); all compared exactly with the mirror too
-      let spec := match cmds with
-        | [.new s, .all] => judgePost d.v.g s (toksNodes impl)
-        | _ => judgePostScript d.v.g cmds toks
-      (d, verdict spec (joinToks (runPost d.v cmds)) impl)
+    | "post" => (d, verdict (judgePostScript d.v.g cmds toks) (joinToks (runPost d.v cmds)) impl)
     | _ => (d, "SPECFAIL bad request")
   | ["bfs", s] =>
-    let s := s.toNat?.getD 0
+    match s.toNat? with
+    | none => (d, "SPECFAIL bad request")
+    | some s =>
+    if !nodesB d.v [s] then (d, outOfRange "start" [s]) else
     if impl == "panic" then (d, "SPECFAIL walker panicked") else
     let m := bfsAll d.v (d.v.g.nodes.length + 2) (Bfs.new s) []
     (d, verdict (judgeBfs d.v.g s (toksNodes impl)) (showNats m) impl)
   | "topo" :: mode :: rest =>
+    let inits := parseNats (rest.headD "-")
+    if mode != "all" && !nodesB d.v inits then (d, outOfRange "initial nodes" inits) else
+    if mode != "all" && !initsOkB inits then
+      (d, s!"SPECFAIL generator left the proved range: {inits.length} initial nodes with repetitions (fuel bound proved for at most 14)") else
     if impl == "panic" then (d, "SPECFAIL walker panicked") else
-    let t0 := if mode == "all" then Topo.new d.v else Topo.withInitials d.v (parseNats (rest.headD "-"))
+    let t0 := if mode == "all" then Topo.new d.v else Topo.withInitials d.v inits
     let f := bigFuel d.v
     let m := topoAll d.v f (d.v.g.nodes.length + 2) t0 []
     let spec := if mode == "all" then judgeTopoAll d.v.g (toksNodes impl) else judgeTopoInit d.v.g (toksNodes impl)
@@ -373,6 +509,7 @@ def step (d : DState) (req : List String) (impl : String) : DState × String :=
   | ["dfsv", starts, script] =>
     let starts := parseNats starts
     let script := parseCtl script
+    if !nodesB d.v starts then (d, outOfRange "start nodes" starts) else
     let f := 4 * bigFuel d.v
     let (s, r) := dfsSearch d.v script f starts {}
     let rs := match r with | .cont => "cont" | .brk => "break" | .panicPruneFinish => "panic" | .fuel => "FUEL"
@@ -380,8 +517,9 @@ def step (d : DState) (req : List String) (impl : String) : DState × String :=
     let m := (if evm.isEmpty then "-" else String.intercalate "," evm) ++ "|" ++ rs
     match impl.splitOn "|" with
     | [evi, ri] =>
-      let evs := if evi == "-" then [] else (evi.splitOn ",").filterMap parseEv
-      (d, verdict (judgeEvents d.v.g starts script evs ri) m impl)
+      match parseEvs evi with
+      | none => (d, s!"SPECFAIL malformed event stream {evi}")
+      | some evs => (d, verdict (judgeEvents d.v.g starts script evs ri) m impl)
     | _ => (d, s!"SPECFAIL malformed answer {impl}")
   | _ => (d, s!"SPECFAIL bad request {req}")
 
